@@ -94,7 +94,7 @@ def gen_fanin_case(rng, k, maxn):
         r = rng.random()
         limit = rng.choice([0, 0, 1])
         nodes[i] = {"deps": [], "cf": rng.random() < 0.3, "cs": rng.random() < 0.3, "limit": limit,
-                    "pre": rng.choice([0, 0, 0, 0, 2]), "prev": 0, "fails": 0 if r < 0.7 else (limit + 1 if r < 0.85 else -1),
+                    "pre": pre_flavour(rng, rng.choice([0, 0, 0, 0, 2])), "prev": 0, "fails": 0 if r < 0.7 else (limit + 1 if r < 0.85 else -1),
                     "obeys": True, "sig": "", "rep": False}
     for j in joins:
         deps = rng.sample(src, rng.randint(3, w)); rng.shuffle(deps)
@@ -136,6 +136,31 @@ def gen_pressure_case(rng, k, maxn):
     return c
 
 
+# flavours of a step's precondition (nodeCase.Pre in go/harness/sched/main.go; Driver.Sched.preOk):
+#   1 met, 2 unmet, 3 answered by the harness while the run goes on (prev);
+#   4 / 5 CANNOT BE EVALUATED (the command substitution of the condition exits non-zero / cannot be started),
+#   6 / 7 `expected: re:<regexp>` that matches / does not match, 8 `re:` with an invalid regexp (matches nothing)
+PRE_UNMET = (2, 4, 5, 7, 8)
+PRE_EVAL_ERROR = (4, 5)
+
+
+def pre_unmet(nd):
+    return nd["pre"] in PRE_UNMET or (nd["pre"] == 3 and nd.get("prev") in (2, 4))
+
+
+def pre_eval_error(nd):
+    return nd["pre"] in PRE_EVAL_ERROR or (nd["pre"] == 3 and nd.get("prev") in (4, 5))
+
+
+def pre_flavour(rng, p):
+    """how a met (1) / unmet (2) precondition is written"""
+    if p == 1:
+        return rng.choice([1, 1, 1, 6])
+    if p == 2:
+        return rng.choice([2, 2, 2, 4, 4, 4, 5, 7, 8])
+    return p
+
+
 def gen_case(rng, k, maxn):
     r0 = rng.random()
     if maxn >= 5 and r0 < 0.12:
@@ -157,7 +182,8 @@ def gen_case(rng, k, maxn):
         elif r < 0.82: fails = limit + 1
         else: fails = -1
         nodes.append({"deps": deps, "cf": rng.random() < 0.3, "cs": rng.random() < 0.3, "limit": limit,
-                      "pre": rng.choice([0, 0, 0, 0, 1, 2]), "prev": 0, "fails": fails, "obeys": rng.random() < 0.8,
+                      "pre": pre_flavour(rng, rng.choice([0, 0, 0, 0, 1, 2])), "prev": 0, "fails": fails,
+                      "obeys": rng.random() < 0.8,
                       "sig": rng.choice(["", "", "", "", "SIGINT"]), "rep": False})
     stop = -1 if rng.random() < 0.6 else rng.randint(0, 2 * n)
     dry = rng.random() < 0.05
@@ -166,9 +192,10 @@ def gen_case(rng, k, maxn):
         # harness-controlled preconditions: the stop / other completions can land while the loop is
         # between its launch decision and the launch itself
         for nd in rng.sample(nodes, min(len(nodes), rng.randint(1, 2))):
-            nd["pre"] = 3; nd["prev"] = rng.choice([1, 1, 2])
+            nd["pre"] = 3; nd["prev"] = rng.choice([1, 1, 1, 2, 2, 4])     # 4: the evaluation fails when it is answered
             if nd["limit"] > 0 and nd["fails"] != 0 and rng.random() < 0.6:
-                nd["prev"] = 3      # met at the first evaluation, unmet when the retried step is re-checked
+                # met at the first evaluation; unmet (3) / not evaluable (5) when the retried step is re-checked
+                nd["prev"] = rng.choice([3, 3, 5])
     if stop >= 0 and not dry and rng.random() < 0.3:
         nd = rng.choice(nodes)        # a repeating step (only in stopped runs: otherwise it repeats for ever)
         nd["rep"] = True; nd["limit"] = 0; nd["fails"] = rng.choice([0, 0, 1, 2]); nd["cf"] = rng.random() < 0.5
@@ -189,7 +216,7 @@ def gen_case(rng, k, maxn):
 
 def nontrivial(c):
     edges = any(n["deps"] for n in c["nodes"])
-    spice = any(n["fails"] != 0 or n["pre"] == 2 or n["limit"] > 0 for n in c["nodes"]) or c["stopAfter"] >= 0 or \
+    spice = any(n["fails"] != 0 or pre_unmet(n) or n["limit"] > 0 for n in c["nodes"]) or c["stopAfter"] >= 0 or \
         (0 < c["maxActive"] < len(c["nodes"]))
     return edges and spice
 
@@ -331,6 +358,12 @@ def run_stream(chk, prop, replay=None):
         # run_harness deals cases[i::8] to 8 processes: put one big case at the head of each
         cases = big + cases
     results = run_harness(binp, cases)
+    if replay and len(cases) == 1 and cases[0].get("ops") is not None and \
+            any("replay-op-not-applicable" in m for m in (results.get(cases[0]["id"]) or {}).get("monitor") or []):
+        # the recorded op order belongs to the behaviour of the tree it was recorded on (other steps run there): on a
+        # tree that behaves differently (e.g. the corrected one) the same case is driven by its PRNG choices instead
+        cases = [{k: v for k, v in cases[0].items() if k != "ops"}]
+        results = run_harness(binp, cases)
     stat = {"stopped": 0, "dry": 0, "with_retry": 0, "with_failure": 0, "with_skip": 0, "limited": 0, "ops_total": 0,
             "nodes_total": 0, "finished": 0, "hang": 0}
     for c in cases:
@@ -348,7 +381,8 @@ def run_stream(chk, prop, replay=None):
         stat["dry"] += bool(c.get("dry"))
         stat["with_retry"] += any(n["limit"] > 0 and n["fails"] != 0 for n in c["nodes"])
         stat["with_failure"] += any(n["fails"] != 0 for n in c["nodes"])
-        stat["with_skip"] += any(n["pre"] == 2 for n in c["nodes"])
+        stat["with_skip"] += any(pre_unmet(n) for n in c["nodes"])
+        stat["with_unevaluable_precondition"] = stat.get("with_unevaluable_precondition", 0) + any(pre_eval_error(n) for n in c["nodes"])
         stat["limited"] += 0 < c["maxActive"] < len(c["nodes"])
         stat["ops_total"] += len(r["ops"]); stat["nodes_total"] += len(c["nodes"])
         stat["finished"] += bool(r.get("finished")); stat["hang"] += bool(r.get("hang"))
@@ -401,7 +435,7 @@ def run_stream(chk, prop, replay=None):
     chk.samples = [{"case": c, "ops": results[c["id"]]["ops"], "final": (results[c["id"]]["snaps"] or [None])[-1]}
                    for c in cases[:2] if c["id"] in results]
     chk.rule = ("corpus + random DAGs (1..%d steps, random topological order, continueOn, retry limits 0-3, scripts "
-                "'fail first k'/'always', preconditions met/unmet, maxActiveRuns 0..n+1, handlers absent/ok/failing, "
+                "'fail first k'/'always', preconditions met/unmet/not evaluable (failing command substitution)/re: patterns, maxActiveRuns 0..n+1, handlers absent/ok/failing, "
                 "stop after a PRNG number of completions, PRNG completion order, 5%% dry); non-trivial = has an edge and "
                 "at least one of failure/skip/retry/limit<n/stop; distinct = distinct configuration" % (8 if chk.tier == "quick" else 12))
     return persistent
